@@ -167,6 +167,25 @@ class ExecutorWorld:
         return dict(self.ex.fields.get("_program_counters", {}))
 
 
+def shared_memory_view(world: "ExecutorWorld", app_id: int = 0) -> Dict[str, Any]:
+    """what the host can read for an application: returned registers and arrays, in plain values"""
+    sm = world.ex.fields.get("_shared_memories", {}).get(app_id)
+    out: Dict[str, Any] = {}
+    if not isinstance(sm, C.Obj):
+        return out
+    for key_, g_ in (sm.fields.get("_registers") or {}).items():
+        bank = key_[1] if isinstance(key_, tuple) else getattr(key_, "name", str(key_))
+        vals = g_.fields.get("_register") if isinstance(g_, C.Obj) else None
+        for i_, v_ in (vals.items() if isinstance(vals, dict) else enumerate(vals or [])):
+            if v_ is not None:
+                out[f"{bank}{i_}"] = v_
+    arrs = sm.fields.get("_arrays")
+    if isinstance(arrs, C.Obj):
+        for a_, v_ in (arrs.fields.get("_arrays") or {}).items():
+            out[f"@{a_}"] = list(v_)
+    return out
+
+
 def nv_transpile(world: ExecutorWorld, subroutine):
     """NVSubroutineTranspiler(subroutine).transpile() by the repository's own classes"""
     t = world.repo.get_class("netqasm.sdk.transpile", "NVSubroutineTranspiler")
